@@ -312,7 +312,8 @@ class Chipset(object):
         data = self._read_register(data)
         if len(data) < len(args):
             self.chipset_error(None)  # missing register values
-        return list(data) if len(data) > 1 else data[0]
+        data = data[:len(args)]  # ignore surplus values
+        return list(data) if len(args) > 1 else data[0]
 
     def _read_register(self, data):
         cname = self.__class__.__module__ + '.' + self.__class__.__name__
